@@ -34,7 +34,9 @@ shutil.copy(os.path.join(out, "demo_test.go"), demo_dst)
 tags = meta.get("tags", "") or ""
 tagflag = f"-tags {tags}" if tags else ""
 rel = os.path.relpath(demo_dir, wt)
-demo_cmd = f"go test -vet=off -count=1 -timeout 600s {tagflag} -run 'C\\d\\d|Demo|Seed' ./{rel}/"
+import re as _re
+names = _re.findall(r"^func (Test\w+)\(", open(os.path.join(out, "demo_test.go")).read(), _re.M)
+demo_cmd = f"go test -vet=off -count=1 -timeout 600s {tagflag} -run '^({'|'.join(names)})$' ./{rel}/"
 rc_with, o_with = sh(demo_cmd)
 ran.append((demo_cmd + "  [change applied]", rc_with))
 rc, o = sh(f"git apply -R {patch}")
